@@ -216,12 +216,21 @@ class Normalizer:
         if i is not None:
             return i
         op = n.op
+
+        def key(a):
+            # canonical (expanded) form of the argument; if that exceeds the expansion budget the atom is keyed by its node:
+            # sound (fewer atoms are identified), the obligation then ends violated-by-witness or inconclusive, never proved wrongly
+            try:
+                return self.rat_key(a)
+            except MemoryError:
+                return ("id", a.id)
+
         if op == "root":
-            argkeys = (self.rat_key(n.args[0]), n.args[1])
+            argkeys = (key(n.args[0]), n.args[1])
         elif op == "uf":
-            argkeys = (n.args[0], n.args[1], tuple(self.rat_key(a) for a in n.args[2]))
+            argkeys = (n.args[0], n.args[1], tuple(key(a) for a in n.args[2]))
         else:
-            argkeys = tuple(self.rat_key(a) for a in n.args)
+            argkeys = tuple(key(a) for a in n.args)
         k = (op, argkeys)
         i = self.gen_index.get(k)
         if i is None:
@@ -231,7 +240,10 @@ class Normalizer:
             if op == "root":
                 num, den = self.ratnorm(n.args[0])
                 if not den:
-                    self.reductions[i] = (n.args[1], self.poly(num))
+                    try:
+                        self.reductions[i] = (n.args[1], self.poly(num))
+                    except MemoryError:
+                        pass  # no reduction rule: the defining equation is still given to the solver as an axiom
                 else:
                     try:
                         quo = self.poly(num).divide_exact(self.poly(self.den_node(den)))
